@@ -38,18 +38,19 @@ type Step struct {
 
 // RunResult is the verdict of one run.
 type RunResult struct {
-	Fails     []Fail // failures of the checked property (first failing step only)
-	FailStep  int
-	FailCmd   *Cmd
-	OtherRule string // run ended by another property's rule
-	Quiet     string // run ended without verdict
-	Steps     []Step
-	LogHash   string
-	Probes    map[string]int
-	Faults    map[string]int
-	States    map[string]bool
-	ObsCalls  int
-	NSteps    int
+	Fails      []Fail // failures of the checked property (first failing step only)
+	FailStep   int
+	FailCmd    *Cmd
+	OtherRule  string // run ended by another property's rule
+	OtherFails []Fail `json:"-"`
+	Quiet      string // run ended without verdict
+	Steps      []Step
+	LogHash    string
+	Probes     map[string]int
+	Faults     map[string]int
+	States     map[string]bool
+	ObsCalls   int
+	NSteps     int
 }
 
 // Engine executes a plan against the real library and the model.
@@ -119,6 +120,7 @@ func (e *Engine) addFails(step int, cmd *Cmd, fails []Fail) {
 	}
 	if e.res.OtherRule == "" {
 		e.res.OtherRule = fails[0].Rule
+		e.res.OtherFails = fails
 	}
 	e.stop = true
 }
